@@ -483,6 +483,17 @@ fn grammar_cases() -> Vec<(String, &'static str, Vec<u8>)> {
         b.extend_from_slice(format!("0.500000 1 36f Rx d 2 01 02 Length = 0 BitCount = 0 ID = 879\n{t} 1 36f Rx d 2 01 02 Length = 0 BitCount = 0 ID = 879\n-{t} 1 36f Rx d 2 01 02 Length = 0 BitCount = 0 ID = 879\n1.000000 1 36f Rx d 2 01 02 Length = 0 BitCount = 0 ID = 879\n").as_bytes());
         out.push((format!("asc_time:{t}"), "asc", b));
     }
+    // every length of the fraction / of the seconds part (scaling by powers of ten, digit counts beyond u64)
+    for n in (1..=40usize).chain([64, 70, 80, 200, 400]) {
+        for (name, t) in [("frac", format!("21.{}", "0".repeat(n - 1) + "1")), ("frac9", format!("21.{}", "9".repeat(n))), ("secs", format!("{}.5", "1".repeat(n))), ("secs0", format!("{}1.5", "0".repeat(n)))] {
+            out.push((format!("logcat_mono_digits:{name}:{n}"), "txt", format!("     1.000   100   200 I tag: first\n{t}   100   200 I tag: hello\n     3.000   100   200 I tag: last\n").into_bytes()));
+            out.push((format!("logcat_threadtime_digits:{name}:{n}"), "txt", format!("01-01 00:00:01.000   100   200 I tag: first\n01-01 00:00:{t}   100   200 I tag: hello\n").into_bytes()));
+            let mut b = pre.clone();
+            b.extend_from_slice(format!("0.500000 1 36f Rx d 2 01 02 Length = 0 BitCount = 0 ID = 879\n{t} 1 36f Rx d 2 01 02 Length = 0 BitCount = 0 ID = 879\n1.000000 1 36f Rx d 2 01 02 Length = 0 BitCount = 0 ID = 879\n").as_bytes());
+            out.push((format!("asc_time_digits:{name}:{n}"), "asc", b));
+            out.push((format!("genlog_digits:{name}:{n}"), "log", format!("[2024-03-09 23:01:31.000] [INF] [first] ok\n[2024-03-09 23:01:{t}] [INF] [t] x\n").into_bytes()));
+        }
+    }
     // generic log
     for d in ["[2024-03-09 23:01:31.627]", "[9999-99-99 99:99:99.999]", "[0000-00-00 00:00:00.000]", "[2024-03-09]", "[]", "2024-03-09 23:01:31.627", "[2024-03-09 23:01:31.627"] {
         for l in ["[INF]", "[ERR]", "[WRN]", "[DBG]", "[]", "[VERYLONGLEVEL]", ""] {
